@@ -1,7 +1,72 @@
-(** * C05 — Sync persistence. *)
-From WT Require Import Base.Wrap Base.ListX Model.FileBuf Proofs.FileBufProofs.
+(** * C05 — Sync persistence: synced state survives reopen; unsynced changes stay off disk.
+    Two layers.  The page buffer (github.com/hnakamur/filebuffer, modelled in Model/FileBuf.v):
+    reads and writes go to cached pages, only Flush touches the disk.  The handle
+    (Model/Handle.v): Sync copies the handle's state to the disk, a fresh Open reads the disk. *)
+From WT Require Import Base.Wrap Base.ListX Base.Bytes Model.Time Model.Ring Model.Update Model.Codec Model.Handle
+  Model.FileBuf Proofs.FileBufProofs Proofs.HandleProofs.
 
+(** ** page buffer, for every page size, file size, offset and length (slots straddling pages included) *)
+Theorem C05_write_changes_view_only_in_range b off data : fb_inv b -> 0 < zlen data ->
+  match write_at b off data with
+  | IoErr => ~ (0 <= off /\ off + zlen data <= fb_size b)
+  | IoOk b' =>
+    fb_inv b' /\ fb_disk b' = fb_disk b /\
+    forall j, 0 <= j < fb_size b ->
+      view b' j = if (off <=? j) && (j <? off + zlen data) then znth 0 data (j - off) else view b j
+  end.
+Proof. exact (write_at_spec b off data). Qed.
+Print Assumptions C05_write_changes_view_only_in_range.
+
+Theorem C05_read_returns_view b off len : fb_inv b -> 0 < len ->
+  match read_at b off len with
+  | IoErr => ~ (0 <= off /\ off + len <= fb_size b)
+  | IoOk (b', data) =>
+    fb_inv b' /\ fb_disk b' = fb_disk b /\ fb_dirty b' = fb_dirty b /\
+    (forall i, 0 <= i < fb_size b -> view b' i = view b i) /\
+    data = map (fun k => view b (off + Z.of_nat k)) (seq 0 (Z.to_nat len))
+  end.
+Proof. exact (read_at_spec b off len). Qed.
+Print Assumptions C05_read_returns_view.
+
+(** the file's bytes change only in Flush *)
+Theorem C05_write_leaves_disk b off data b' : write_at b off data = IoOk b' -> fb_disk b' = fb_disk b.
+Proof. exact (write_at_disk b off data b'). Qed.
+Print Assumptions C05_write_leaves_disk.
+Theorem C05_read_leaves_disk b off len b' data : read_at b off len = IoOk (b', data) -> fb_disk b' = fb_disk b.
+Proof. exact (read_at_disk b off len b' data). Qed.
+Print Assumptions C05_read_leaves_disk.
+
+(** after Flush the disk holds exactly what the handle showed, the file length is unchanged, and
+    the handle shows the same as before *)
 Theorem C05_flush_disk_is_view b : fb_inv b -> forall i, 0 <= i < fb_size b ->
   znth 0 (fb_disk (flush b)) i = view b i.
 Proof. exact (flush_disk_is_view b). Qed.
 Print Assumptions C05_flush_disk_is_view.
+Theorem C05_flush_keeps_length b : fb_size (flush b) = fb_size b.
+Proof. exact (flush_size b). Qed.
+Print Assumptions C05_flush_keeps_length.
+Theorem C05_flush_keeps_view b j : fb_inv b -> 0 <= j < fb_size b -> view (flush b) j = view b j.
+Proof. exact (flush_view b j). Qed.
+Print Assumptions C05_flush_keeps_view.
+
+(** ** handle: histories of updates and Syncs *)
+(** a fresh Open after Sync sees, for every archive and window, what the live handle sees *)
+Theorem C05_reopen_equals_live h id from until now :
+  exists h', reopen (sync h) = Some h' /\ h_fetch h' id from until now = h_fetch h id from until now.
+Proof. exact (sync_then_reopen_fetch h id from until now). Qed.
+Print Assumptions C05_reopen_equals_live.
+
+(** for every history and every abandonment point: dropping the handle leaves on disk precisely
+    the state at the last Sync (for every float-operation record) *)
+Theorem C05_abandon_leaves_last_sync F h before after :
+  forallb (fun o => negb (is_sync o)) after = true ->
+  hd_disk (hrun F h (before ++ HSync :: after)) = hd_arcs (hrun F h before) /\
+  hd_hdr_on_disk (hrun F h (before ++ HSync :: after)) = true.
+Proof. exact (abandon_leaves_last_sync F h before after). Qed.
+Print Assumptions C05_abandon_leaves_last_sync.
+
+Theorem C05_no_sync_no_change F h ops :
+  forallb (fun o => negb (is_sync o)) ops = true ->
+  hd_disk (hrun F h ops) = hd_disk h /\ hd_hdr_on_disk (hrun F h ops) = hd_hdr_on_disk h.
+Proof. exact (abandon_before_any_sync F h ops). Qed.
+Print Assumptions C05_no_sync_no_change.
